@@ -228,3 +228,139 @@ pub fn draw<T: std::fmt::Debug, S: Strategy<Value = T>>(ctx: &Ctx, stage: &str, 
     let mut runner = TestRunner::new_with_rng(config(1, 0), rng);
     (0..n).map(|_| strat.new_tree(&mut runner).expect("strategy").current()).collect()
 }
+
+// ---------------------------------------------------------------- worker processes
+
+/// Worker side: explore `cases` generated values single-threaded on a thread with `stack` bytes of
+/// stack; print "C <case json>" before each case and "R <report json>" at the end (stdout).
+pub fn worker_serve<T, S, F>(prop: &str, seed: u64, shard: u64, stages: &[(&str, u32)], strat: impl Fn(&str) -> S + Sync, oracle: F, stack: usize) -> i32
+where
+    T: std::fmt::Debug + Clone + Serialize,
+    S: Strategy<Value = T>,
+    F: Fn(&T, &mut Stats) -> Result<(), String> + Sync,
+{
+    use std::io::Write;
+    let ctx = Ctx { prop: prop.to_string(), tier: Tier::Quick, seed: util::mix(seed, "worker", shard), threads: 1 };
+    let mut rep = Report::new("");
+    let out = std::io::stdout();
+    let logged = |c: &T, st: &mut Stats| -> Result<(), String> {
+        {
+            let mut o = out.lock();
+            let _ = writeln!(o, "C {}", serde_json::to_string(c).unwrap_or_default());
+            let _ = o.flush();
+        }
+        oracle(c, st)
+    };
+    for (stage, n) in stages {
+        explore_with_stack(&mut rep, &ctx, stage, *n, || strat(stage), &logged, stack);
+    }
+    let r = serde_json::json!({
+        "evaluations": rep.stats.evaluations,
+        "nontrivial": rep.stats.nontrivial.iter().collect::<Vec<_>>(),
+        "hist": rep.stats.hist,
+        "samples": rep.stats.samples,
+        "known_hits": rep.stats.known_hits,
+        "failure": rep.failures.first().map(|f| serde_json::json!({"what": f.what, "case": f.case, "stage": f.stage})),
+    });
+    let mut o = out.lock();
+    let _ = writeln!(o, "R {}", serde_json::to_string(&r).unwrap());
+    0
+}
+
+/// Parent side: spawn `workers` processes `<exe> worker <id> <seed> <shard> <args...>`, merge their
+/// reports; a worker that dies without a report blames its in-flight case.
+pub fn workers_collect(rep: &mut Report, ctx: &Ctx, stage: &str, worker_id: &str, workers: usize, extra: &[String]) {
+    let t0 = Instant::now();
+    let exe = std::env::current_exe().expect("exe");
+    let children: Vec<_> = (0..workers)
+        .map(|i| {
+            let mut a = vec!["worker".to_string(), worker_id.to_string(), ctx.seed.to_string(), i.to_string()];
+            a.extend(extra.iter().cloned());
+            std::process::Command::new(&exe).args(&a).stdout(std::process::Stdio::piped()).stderr(std::process::Stdio::null()).spawn()
+        })
+        .collect();
+    let handles: Vec<_> = children.into_iter().map(|ch| std::thread::spawn(move || ch.and_then(|c| c.wait_with_output()))).collect();
+    let mut st = Stats::default();
+    let mut failure: Option<Failure> = None;
+    for (i, h) in handles.into_iter().enumerate() {
+        let out = match h.join().unwrap_or_else(|_| Err(std::io::Error::new(std::io::ErrorKind::Other, "join"))) {
+            Ok(o) => o,
+            Err(e) => {
+                rep.inconclusive = Some(format!("cannot run worker {i}: {e}"));
+                continue;
+            }
+        };
+        let text = String::from_utf8_lossy(&out.stdout);
+        let mut last_case: Option<&str> = None;
+        let mut report: Option<Value> = None;
+        for l in text.lines() {
+            if let Some(c) = l.strip_prefix("C ") {
+                last_case = Some(c);
+            } else if let Some(r) = l.strip_prefix("R ") {
+                report = serde_json::from_str(r).ok();
+            }
+        }
+        match report {
+            Some(r) => {
+                st.evaluations += r["evaluations"].as_u64().unwrap_or(0);
+                for h in r["nontrivial"].as_array().into_iter().flatten() {
+                    if let Some(x) = h.as_u64() {
+                        st.nontrivial.insert(x);
+                    }
+                }
+                for (k, v) in r["hist"].as_object().into_iter().flatten() {
+                    *st.hist.entry(k.clone()).or_insert(0) += v.as_u64().unwrap_or(0);
+                }
+                for (k, v) in r["known_hits"].as_object().into_iter().flatten() {
+                    *st.known_hits.entry(k.clone()).or_insert(0) += v.as_u64().unwrap_or(0);
+                }
+                for s in r["samples"].as_array().into_iter().flatten() {
+                    if st.samples.len() < crate::report::MAX_SAMPLES {
+                        st.samples.push(s.clone());
+                    }
+                }
+                if failure.is_none() && !r["failure"].is_null() {
+                    failure = Some(Failure { stage: r["failure"]["stage"].as_str().unwrap_or(stage).to_string(), what: r["failure"]["what"].as_str().unwrap_or("").to_string(), case: r["failure"]["case"].clone() });
+                }
+            }
+            None => {
+                use std::os::unix::process::ExitStatusExt;
+                let how = match out.status.signal() {
+                    Some(11) => "SIGSEGV (stack overflow or invalid memory access)".to_string(),
+                    Some(6) => "SIGABRT (abort)".to_string(),
+                    Some(9) => "SIGKILL (out of memory?)".to_string(),
+                    Some(s) => format!("signal {s}"),
+                    None => format!("exit status {:?}", out.status.code()),
+                };
+                let case: Value = last_case.and_then(|c| serde_json::from_str(c).ok()).unwrap_or(Value::Null);
+                if failure.is_none() {
+                    failure = Some(Failure { stage: stage.to_string(), what: format!("the worker process died with {how} while executing this case"), case });
+                }
+            }
+        }
+    }
+    rep.stage_done(stage, st, t0.elapsed().as_secs_f64(), failure);
+}
+
+/// Replay helper for checks whose cases may crash the process: re-run `<exe> <ID> --replay` in a child
+/// with VERIF_INPROC set and translate its fate.
+pub fn replay_in_child(id: &str, stage: &str, case: &Value) -> Result<(), String> {
+    let exe = std::env::current_exe().map_err(|e| format!("HARNESS: {e}"))?;
+    let tmp = format!("/verif/.work/{}-replay-{}.json", id, std::process::id());
+    std::fs::create_dir_all("/verif/.work").ok();
+    std::fs::write(&tmp, serde_json::json!({"stage": stage, "case": case}).to_string()).map_err(|e| format!("HARNESS: {e}"))?;
+    let o = std::process::Command::new(exe).args([id, "--replay", &tmp]).env("VERIF_INPROC", "1").output().map_err(|e| format!("HARNESS: {e}"))?;
+    std::fs::remove_file(&tmp).ok();
+    use std::os::unix::process::ExitStatusExt;
+    if let Some(s) = o.status.signal() {
+        return Err(format!("the process died with signal {s} while executing the case"));
+    }
+    match o.status.code() {
+        Some(0) => Ok(()),
+        Some(1) => {
+            let t = String::from_utf8_lossy(&o.stdout);
+            Err(t.lines().find_map(|l| l.split("what=").nth(1)).unwrap_or("violation").to_string())
+        }
+        c => Err(format!("HARNESS: replay child ended with {c:?}")),
+    }
+}
